@@ -27,6 +27,7 @@ CONSTANTS
   Depth = 30
   AttBound = 100
   ViewKeep = {}
+  GenBFS = FALSE
   AckAll = FALSE
   Weights <- mcWeights
 CHECK_DEADLOCK FALSE
